@@ -697,10 +697,37 @@ fn roundtrip(w: &W, fmt: Fmt) -> Verdict {
     w.wild.set(w.chance(1, 12));
     let wl = gen_workload(w, fmt)?;
     w.wild.set(false);
+    let mut wl = wl;
+    // Known finding K2: a record whose first column starts with '#' is written as a comment line
+    // and silently lost on read. Generated on purpose in 1 round-trip run of 30, judged under its
+    // own clause (see below), never mixed into the other scenarios.
     let wild = match fmt {
         Fmt::Bed => wl.bed.iter().any(|b| b.chrom.contains(['\t', '\n']) || b.aux.iter().any(|a| a.contains(['\t', '\n']))),
         Fmt::Gff(_) => wl.gff.iter().any(|g| [&g.seqname, &g.source, &g.feature, &g.score, &g.strand].iter().any(|f| f.contains(['\t', '\n']))),
     };
+    let mut hashed: Vec<usize> = vec![];
+    // (never together with tabs / line feeds inside fields: the comment would end at the first
+    // embedded line feed and leave a fragment behind, which is a different effect)
+    if !wild && wl.len() > 0 && w.chance(1, 30) {
+        let i = w.draw(wl.len() as u64) as usize;
+        match fmt {
+            Fmt::Bed => {
+                wl.bed[i].chrom.insert(0, '#');
+                let c = wl.bed[i].chrom.clone();
+                wl.bed_recs[i].set_chrom(&c);
+            }
+            Fmt::Gff(_) => {
+                wl.gff[i].seqname.insert(0, '#');
+                *wl.gff_recs[i].seqname_mut() = wl.gff[i].seqname.clone();
+            }
+        }
+        hashed.push(i);
+        w.probe("first_column_starts_with_hash");
+        if w.keep_trace {
+            w.note("workload", wl.json());
+        }
+    }
+    let kept: Vec<usize> = (0..wl.len()).filter(|i| !hashed.contains(i)).collect();
     let (wio, rio, eintr_on) = draw_faults(w);
     let written = producer_phase(w, &wl, wio)?;
     // storage: identity or comment lines inserted at line boundaries
@@ -753,6 +780,10 @@ fn roundtrip(w: &W, fmt: Fmt) -> Verdict {
             if !ended {
                 return fail("C13.f-livelock", format!("iterator yielded {} items for a {}-byte file without ending", items.len(), data.len()));
             }
+            // csv quotes the field if it also contains a quote or CR: then it is not a comment
+            if !hashed.is_empty() && !wl.bed[hashed[0]].chrom.contains(['"', '\r', '\n', '\t']) {
+                return judge_k2(w, judge_roundtrip(w, &items, kept.len(), eintr_on, &|i, r| compare_item_bed(kept[i], r, &wl), clause_count), &wl.bed[hashed[0]].chrom);
+            }
             let v = judge_roundtrip(w, &items, wl.len(), eintr_on, &|i, r| compare_item_bed(i, r, &wl), clause_count);
             relabel_comments(v, with_comments)
         }
@@ -764,9 +795,38 @@ fn roundtrip(w: &W, fmt: Fmt) -> Verdict {
             if !ended {
                 return fail("C13.f-livelock", format!("iterator yielded {} items for a {}-byte file without ending", items.len(), data.len()));
             }
+            if !hashed.is_empty() && !wl.gff[hashed[0]].seqname.contains(['"', '\r', '\n', '\t']) {
+                return judge_k2(
+                    w,
+                    judge_roundtrip(w, &items, kept.len(), eintr_on, &|i, r| gff_compare(r, &wl.gff[kept[i]], &wl.gff_recs[kept[i]]), clause_count),
+                    &wl.gff[hashed[0]].seqname,
+                );
+            }
             let v = judge_roundtrip(w, &items, wl.len(), eintr_on, &|i, r| gff_compare(r, &wl.gff[i], &wl.gff_recs[i]), clause_count);
             relabel_comments(v, with_comments)
         }
+    }
+}
+
+const K2_CLAUSE: &str = "C13.k2-first-column-hash";
+
+/// `v` is the verdict of comparing what was read with the written list *minus* the record whose
+/// first column starts with '#'. If that comparison holds, the only thing wrong is the silent loss
+/// of that record: known finding K2, under its own clause. Anything else keeps its regular clause.
+fn judge_k2(w: &W, v: Verdict, first_col: &str) -> Verdict {
+    match v {
+        Ok(()) if w.probes.borrow().get("eintr_surfaced_by_reader") > 0 => Ok(()),
+        Ok(()) => {
+            w.clause(K2_CLAUSE);
+            fail(
+                K2_CLAUSE,
+                format!(
+                    "record whose first column starts with '#' silently lost: first column {:?} was written unquoted, read as a comment line; every other record is identical",
+                    first_col
+                ),
+            )
+        }
+        Err(e) => Err(e),
     }
 }
 
@@ -1108,14 +1168,14 @@ pub fn property() -> Property {
         real: &["bio::io::bed::{Writer, Reader, Records, Record}", "bio::io::gff::{Writer, Reader, Records, Record, Phase, GffType}", "csv / csv-core (reader and writer)", "regex (attribute column)", "multimap::MultiMap over std RandomState"],
         stubs: &["the OS file/pipe under the writer (SimWrite: short writes, EINTR)", "the OS file/pipe under the reader (SimRead: short reads, EINTR)", "the editor that inserts comment lines", "media fault / bad edit (targeted field damage, byte corruption, cut)"],
         assumptions: &[
-            "domain: fields contain no tab and no '\\n'; the first column does not start with '#'; GFF attribute keys/values are non-empty, avoid the dialect's delimiters (GFF3: '=' ';' ',' ; GFF2/GTF2: blank ';' NUL), tabs, line breaks and quote characters; GFF3 keys do not start with a blank",
+            "domain: a first column starting with '#' is generated only for known finding K2 (1 round-trip run in 30, own clause); tabs and line feeds inside fixed columns only in 1 round-trip run in 12; GFF attribute keys/values are non-empty, avoid the dialect's delimiters (GFF3: '=' ';' ',' ; GFF2/GTF2: blank ';' NUL), tabs, line breaks and quote characters; GFF3 keys do not start with a blank",
             "BED column-count damage is only applied to lines other than the first (BED has no fixed column count: the first line defines it); GFF column-count damage is applied to any line (a GFF record always has nine columns)",
             "under injected EINTR the csv reader may surface Err(Interrupted) and stop: accepted only if EINTR fired, the Ok items are a correct prefix, and the loss is signalled by that Err item",
             "random byte corruption is only checked for panics and livelock (a flipped byte can be a quote that legitimately swallows lines)",
         ],
         expected_probes: &[
             "multi_valued_attribute", "key_order_differs_from_insertion", "quoted_csv_field", "csv_field_or_line_split_across_reads",
-            "damage_bad_number", "damage_bad_phase", "damage_phase_in_u8_range", "damage_column_missing", "damage_column_added", "eintr_surfaced_by_reader", "many_records_regime", "field_with_tab_or_line_feed", "many_values_record", "records_iterator_restarted", "damaged_line_follows_comment", "damaged_last_line_without_newline",
+            "damage_bad_number", "damage_bad_phase", "damage_phase_in_u8_range", "damage_column_missing", "damage_column_added", "eintr_surfaced_by_reader", "many_records_regime", "first_column_starts_with_hash", "field_with_tab_or_line_feed", "many_values_record", "records_iterator_restarted", "damaged_line_follows_comment", "damaged_last_line_without_newline",
         ],
         quick_runs: 300_000,
         thorough_runs: 20_000_000,
